@@ -18,10 +18,11 @@ EXPLANATION = (
     "(active, {its __name__: value}), the key the ranking looks up); R-select-pure (effect analysis: "
     "select, every exported measure and every filter mutate none of X, y, ranks; features are "
     "shuffled on a copy); R-definite-assignment (no UnboundLocalError path in the selector modules); "
-    "R-union-refiltered (a join of per-measure selections is filtered again before it is returned)."
+    "R-union-refiltered (a join of per-measure selections is filtered again before it is returned); "
+    "R-colsample-cover (with colsample < 1 the samples cover every feature: k-1 equal chunks and an open-ended last one)."
 )
 NOT_DECIDED = "numerical equality of the measures with an independent recomputation; scipy/pandas statistics themselves"
-FLOORS = {"R-rank-desc": 5, "R-filter-greedy": 12, "R-abs-corr": 2, "R-measure-formula": 5, "R-measure-registry": 12, "R-select-pure": 20, "R-definite-assignment": 30, "R-union-refiltered": 1}
+FLOORS = {"R-rank-desc": 5, "R-filter-greedy": 12, "R-abs-corr": 2, "R-measure-formula": 5, "R-measure-registry": 12, "R-select-pure": 20, "R-definite-assignment": 30, "R-union-refiltered": 1, "R-colsample-cover": 2}
 
 
 def abs_scope(repo):
@@ -39,6 +40,7 @@ def check(ctx):
     S.check_select_pure(ctx, "R-select-pure")
     S.check_definite_assignment(ctx, "R-definite-assignment")
     S.check_union_refiltered(ctx, "R-union-refiltered")
+    S.check_colsample_cover(ctx, "R-colsample-cover")
 
 
 _D7 = "    # Chi2 statistic\n    measurement = {}\n    if chi2_statistic is None:\n        _, measurement = chi2_measure(x, y, **kwargs)\n        chi2_statistic = measurement.get(\"chi2_statistic\")\n\n    # number of observations\n    n_obs = (notna(x) & notna(y)).sum()\n\n    # number of values taken by the features\n    n_mod_x, n_mod_y = x.nunique(), y.nunique()\n    min_n_mod"
@@ -56,6 +58,8 @@ MUTANTS = [
     M("qualitative filter includes the feature itself", [(F_QLF, "    better_features = list(ranks.loc[:feature].index)[:-1]", "    better_features = list(ranks.loc[:feature].index)")], "R-filter-greedy", "qualitative: compared"),
     M("thresh_filter runs last", [(F_SEL, "            dtype: [thresh_filter] + requested_filters[:]", "            dtype: requested_filters[:] + [thresh_filter]")], "R-filter-greedy", "thresh_filter"),
     M("spearman filter computes pearson", [(F_QTF, "    return quantitative_filter(X, ranks, \"spearman\", thresh_corr, **params)", "    return quantitative_filter(X, ranks, \"pearson\", thresh_corr, **params)")], "R-filter-greedy", "spearman_filter"),
+    M("colsample split drops the remainder", [(F_SEL, "                    # adding last sample with all remaining features\n                    feature_samples += [features[chunks * (int(1 / self.colsample) - 1) :]]\n", ""), (F_SEL, "                        for i in range(int(1 / self.colsample) - 1)", "                        for i in range(int(1 / self.colsample))")], "R-colsample-cover"),
+    M("tschuprowt counts rows where only x is known", [(F_QLM, "    n_obs = (notna(x) & notna(y)).sum()\n\n    # number of values taken by the features\n    n_mod_x, n_mod_y = x.nunique(), y.nunique()\n\n    # Tschuprow's T", "    n_obs = notna(x).sum()\n\n    # number of values taken by the features\n    n_mod_x, n_mod_y = x.nunique(), y.nunique()\n\n    # Tschuprow's T")], "R-measure-formula", "tschuprowt_measure"),
     M("cramerv normalised by max instead of min", [(F_QLM, "    min_n_mod = min(n_mod_x, n_mod_y)", "    min_n_mod = max(n_mod_x, n_mod_y)")], "R-measure-formula", "cramerv_measure"),
     M("tschuprowt without the square root of the dof product", [(F_QLM, "    dof_mods = sqrt((n_mod_x - 1) * (n_mod_y - 1))", "    dof_mods = (n_mod_x - 1) * (n_mod_y - 1)")], "R-measure-formula", "tschuprowt_measure"),
     M("measure stored under another key", [(F_QTM, "        measurement = {\"kruskal_measure\": kw[0]}", "        measurement = {\"kruskal\": kw[0]}")], "R-measure-registry", "kruskal_measure"),
